@@ -112,11 +112,14 @@ type progOpts struct {
 	customFunc  string                // name of a user-installed int -> int function to call now and then
 	onTemplates func(ts []*gtemplate) // receives the generated templates (params of every template, not only the entry)
 	// C07
-	allParams    bool     // data sets supply optional params too
-	totalCalls   bool     // every call passes every callee param (optional ones too); no data="$expr"
-	maxTemplates int      // > 0: bundles of 1..maxTemplates templates instead of 1..4
-	shapes       bool     // print-directive chains of every length 0..8 (marker / cancelling / non-cancelling mixes), list literals of 0..8 items
-	chainExtra   []string // user-installed non-cancelling directives usable in chains, e.g. "|bang"
+	allParams      bool     // data sets supply optional params too
+	totalCalls     bool     // every call passes every callee param (optional ones too); no data="$expr"
+	headerDefaults bool     // header params may carry a default value ({@param x: int = 10}); they stay required
+	dupShort       bool     // templates in different namespaces may share a short name
+	aliases        bool     // files declare {alias other.ns}; calls across namespaces may use the alias
+	maxTemplates   int      // > 0: bundles of 1..maxTemplates templates instead of 1..4
+	shapes         bool     // print-directive chains of every length 0..8 (marker / cancelling / non-cancelling mixes), list literals of 0..8 items
+	chainExtra     []string // user-installed non-cancelling directives usable in chains, e.g. "|bang"
 }
 
 // progMsgHook, when set (by a property's tagged file) and progOpts.msgPO is on,
@@ -800,6 +803,9 @@ func (g *progGen) call(env genv, d int) string {
 	if callee.ns == caller.ns && g.r.Chance(70) {
 		name = "." + callee.short
 		g.feat("call-relative")
+	} else if g.o.aliases && callee.ns != caller.ns && g.r.Chance(50) {
+		name = callee.ns[strings.LastIndex(callee.ns, ".")+1:] + "." + callee.short
+		g.feat("call-aliased")
 	}
 	if g.o.scope {
 		if name[0] != '.' {
@@ -985,6 +991,20 @@ func genBundle(r *hx.Rand, o progOpts) (files []srcFile, entry string, dataSets 
 		if i == 0 {
 			t.ns = nss[0]
 		}
+		if o.dupShort && i > 0 && r.Chance(35) {
+			// reuse the short name of an earlier template that lives in another namespace
+			prev := g.tmpls[r.Intn(len(g.tmpls))]
+			clash := prev.ns == t.ns
+			for _, q := range g.tmpls {
+				if q.ns == t.ns && q.short == prev.short {
+					clash = true
+				}
+			}
+			if !clash {
+				t.short = prev.short
+				g.feat("dup-short-name")
+			}
+		}
 		t.file = t.ns
 		if o.scope && r.Chance(30) {
 			t.file = t.ns + "#2" // a second file of the same namespace
@@ -1065,6 +1085,13 @@ func genBundle(r *hx.Rand, o progOpts) (files []srcFile, entry string, dataSets 
 		ns := fs.ns
 		var sb strings.Builder
 		sb.WriteString("{namespace " + ns + attrSrcG(nsAttr[ns]) + "}\n\n")
+		if o.aliases {
+			for _, other := range nss {
+				if other != ns && strings.Contains(other, ".") {
+					sb.WriteString("{alias " + other + "}\n")
+				}
+			}
+		}
 		for _, other := range nss {
 			if g.alias[ns][other] {
 				sb.WriteString("{alias " + other + "}\n")
@@ -1083,7 +1110,25 @@ func genBundle(r *hx.Rand, o progOpts) (files []srcFile, entry string, dataSets 
 					if p.optional {
 						q = "?"
 					}
-					sb.WriteString("{@param" + q + " " + p.name + ": " + kindNames[p.k] + "}\n")
+					dflt := ""
+					if o.headerDefaults && r.Chance(40) {
+						switch p.k {
+						case kInt, kOptInt:
+							dflt = " = 10"
+						case kStr:
+							dflt = " = 'dflt'"
+						case kBool:
+							dflt = " = true"
+						case kFloat:
+							dflt = " = 0.5"
+						case kListInt, kEList:
+							dflt = " = [1, 2]"
+						}
+						if dflt != "" {
+							g.feat("header-param-default")
+						}
+					}
+					sb.WriteString("{@param" + q + " " + p.name + ": " + kindNames[p.k] + dflt + "}\n")
 				}
 			} else {
 				sb.WriteString("/**\n")
